@@ -1,5 +1,5 @@
 """Property -> rule composition.  Each function decides the statically decidable clauses of one property."""
-from .rules import kdefects, numeric, seed, typestate, ownership, clifford, circuit, stabilizer, adjoint, manifold, gellmann, twins
+from .rules import kdefects, numeric, seed, typestate, ownership, clifford, circuit, stabilizer, adjoint, manifold, gellmann, twins, backend
 
 M = 'numqi.'
 DECISION_C05 = ['numqi.entangle.ppt.is_ppt', 'numqi.entangle.ppt.is_generalized_ppt',
@@ -49,6 +49,24 @@ def c07(proj, rep, tier):
                'runtime arrays and is not decided')
 
 
+# B1 sites that compare equal on the reviewed tree (floor by identity: losing one is an analysis error, not a violation)
+B1_MANIFOLD = {'numqi.manifold._ABk.ABk_skew_symmetry_index_to_full#0', 'numqi.manifold._internal.symmetric_matrix_to_trace1PSD#0',
+               'numqi.manifold._internal.to_ball#0', 'numqi.manifold._internal.to_discrete_probability_softmax#0',
+               'numqi.manifold._internal.to_open_interval#0', 'numqi.manifold._internal.to_positive_real_exp#0',
+               'numqi.manifold._internal.to_positive_real_softplus#0', 'numqi.manifold._internal.to_special_orthogonal_cayley#0',
+               'numqi.manifold._internal.to_special_orthogonal_exp#0', 'numqi.manifold._internal.to_sphere_coordinate#0',
+               'numqi.manifold._internal.to_sphere_quotient#0', 'numqi.manifold._internal.to_symmetric_matrix#0',
+               'numqi.manifold._internal.to_trace1_psd_cholesky#0', 'numqi.manifold._internal.to_trace1_psd_ensemble#0',
+               'numqi.manifold._stiefel._to_stiefel_euler_real#0', 'numqi.manifold._stiefel.to_stiefel_choleskyL#0',
+               'numqi.manifold._stiefel.to_stiefel_qr#0', 'numqi.manifold._stiefel.to_stiefel_qr#1'}
+B1_GATE = {'numqi.gate._internal.pauli_exponential#0', 'numqi.gate._internal.rx#0', 'numqi.gate._internal.rz#0',
+           'numqi.gate._internal.rzz#0', 'numqi.gate._internal.u3#0'}
+B1_GELLMANN = {'numqi.gellmann.gellmann_basis_to_dm#0', 'numqi.gellmann.get_density_matrix_distance2#0',
+               'numqi.gellmann.matrix_to_gellmann_basis#0'}
+B1_CHANNEL = {'numqi.channel._internal.apply_choi_op#0', 'numqi.channel._internal.kraus_op_to_choi_op#0',
+              'numqi.utils.get_Renyi_entropy#0', 'numqi.utils.get_fidelity#0', 'numqi.utils.get_purity#0'}
+B1_QEC = {'numqi.qec._varqec.knill_laflamme_loss#0'}
+
 MANIFOLD = ['numqi.manifold._internal', 'numqi.manifold._stiefel', 'numqi.manifold._compose', 'numqi.manifold._ABk',
             'numqi.manifold._misc']
 
@@ -65,6 +83,7 @@ def c01(proj, rep, tier):
     n = kdefects.k1(proj, rep, MANIFOLD)
     n = twins.tw(proj, rep, MANIFOLD)
     rep.floor('TW twin blocks in the manifold modules (real / complex constructor halves)', n, 3)
+    backend.b1(proj, rep, MANIFOLD, expect_match=B1_MANIFOLD)
     rep.assume('membership itself (unit norm, PSD, X^dagger X = I, simplex, interval) for all theta is value-level: not decided; '
                'known blind spots: ball map formula, Euler-map batch broadcast, float32 conditioning')
 
@@ -88,6 +107,7 @@ def c16(proj, rep, tier):
     nsite, ntyped = gellmann.g2(proj, rep, None)
     rep.floor('G2 synthesis call sites in the package', nsite, 20)
     rep.floor('G2 projected sites typed', ntyped, 10)
+    backend.b1(proj, rep, ['numqi.gellmann'], expect_match=B1_GELLMANN)
     ncache, nsites = ownership.o1(proj, rep, focus={'numqi.gellmann._all_gellmann_matrix_cache'})
     rep.floor('O1 Gell-Mann cache + wrapper', ncache, 2)
     rep.assume('orthogonality Tr(G_i G_j) = 2 delta_ij, exact round trip and the float32 path are value-level: not decided')
@@ -100,6 +120,7 @@ def c03(proj, rep, tier):
     rep.floor('D1 dispatch obligations', n, 17)
     n = circuit.u1(proj, rep)
     rep.floor('U1 to_unitary', n, 1)
+    backend.b1(proj, rep, ['numqi.gate._internal'], expect_match=B1_GATE)
     n = ownership.o2(proj, rep)
     rep.floor('O2 cached functions examined', n, 20)
     rep.assume("the kind 'kraus' has no dispatch arm by the source's own `# TODO kraus` (circuit.py): recorded but not claimed")
@@ -116,6 +137,7 @@ def c04(proj, rep, tier):
     rep.floor('A Knill-Laflamme backward obligations', n, 5)
     n = adjoint.d1(proj, rep)
     rep.floor('D1/A1/A3 circuit sweep obligations', n, 17)
+    backend.b1(proj, rep, ['numqi.gate._internal'], expect_match=B1_GATE)
     n = twins.tw(proj, rep, ['numqi.sim.state', 'numqi.sim._torch_utils', 'numqi._torch_op', 'numqi.qec._internal'])
     rep.floor('TW twin blocks in the backward helpers (grad / conj halves of the op_grad contraction)', n, 2)
     rep.assume('that the accumulated numbers equal the derivative (Sylvester backward of sqrtm, Pade logm, the op_grad einsum) is '
@@ -136,6 +158,7 @@ def c19(proj, rep, tier):
     n = adjoint.a_kl(proj, rep)
     rep.floor('A Knill-Laflamme backward obligations', n, 5)
     adjoint.a4_a5(proj, rep, only={'numqi.qec._internal._KnillLaflammeInnerProductTorchOp'})
+    backend.b1(proj, rep, ['numqi.qec._varqec', 'numqi.qec._internal'], expect_match=B1_QEC)
     n = ownership.o2(proj, rep)
     rep.floor('O2 cached functions examined', n, 20)
     rep.assume('Q4 assumes the simulator applies each recorded gate as the operator of its registry entry (subject of C03)')
@@ -188,7 +211,7 @@ def c20(proj, rep, tier):
 
 
 def dev(proj, rep, tier):
-    print(twins.tw(proj, rep, None))
+    print(backend.b1(proj, rep, None))
 
 
 PROPS = {'C01': c01, 'C02': c02, 'C16': c16, 'C03': c03, 'C04': c04, 'C05': c05, 'C07': c07, 'C19': c19, 'C10': c10, 'C11': c11, 'C18': c18, 'C20': c20, 'DEV': dev}
